@@ -2,6 +2,8 @@ package main
 
 import (
 	"fmt"
+	"go/types"
+	"golang.org/x/tools/go/ssa"
 	"strings"
 )
 
@@ -39,6 +41,34 @@ func c14e(c *Ctx) {
 			base, okB := intConst(a[1])
 			bits, okS := intConst(a[2])
 			lit := c.term(fn, a[0])
+			// what was decoded is used as it is: converted to int at most (a narrower integer type
+			// on the way wraps large values silently)
+			if call, isCall := ci.(*ssa.Call); isCall && call.Referrers() != nil {
+				var follow func(v ssa.Value, depth int)
+				follow = func(v ssa.Value, depth int) {
+					if v.Referrers() == nil || depth > 4 {
+						return
+					}
+					for _, r := range *v.Referrers() {
+						switch y := r.(type) {
+						case *ssa.Extract:
+							if y.Index == 0 {
+								follow(y, depth+1)
+							}
+						case *ssa.Convert:
+							if b, ok := y.Type().Underlying().(*types.Basic); ok && b.Info()&types.IsInteger != 0 {
+								if b.Kind() != types.Int && b.Kind() != types.Int64 {
+									c.Bad(key+"/narrowed", c.W.Pos(y.Pos()), "the decoded number is converted to "+b.Name()+" before it is used: values beyond that type's range wrap instead of being rejected")
+								}
+								follow(y, depth+1)
+							}
+						case *ssa.Phi:
+							follow(y, depth+1)
+						}
+					}
+				}
+				follow(call, 0)
+			}
 			c.Check(okB && base == 0 && okS && bits == 64 && strings.HasSuffix(lit, ".Literal"), key, pos, "ParseInt(<token>.Literal, 0, 64)", fmt.Sprintf("an integer literal is decoded with ParseInt(%s, %d, %d): with a base other than 0 the 0x form is rejected and a leading 0 changes meaning; with fewer than 64 bits large values wrap instead of being rejected", pretty(lit), base, bits))
 		}
 	}
